@@ -72,7 +72,7 @@ def items(tier):
         if k not in seen:
             seen.add(k)
             out.append(("skel", d))
-    out += [("argorder", n) for n in range(0, 5)]
+    out += [("argorder", n) for n in range(0, 9)]
     return out
 
 
@@ -206,24 +206,28 @@ def check_skeleton(desc, tier, twin=False):
     return H.finish(res, [ex.stats], q)
 
 
-def check_argorder(n_unlisted):
-    """listed variables first (in the order given), then the remaining free variables in name order"""
+def check_argorder(n_vars):
+    """listed variables first (in the order given), then the remaining free variables in name order.
+    ONE expression is compiled again and again in this process with different listings (a history), its
+    variables include names of Python builtins, listings may name variables the expression does not use."""
     import pymbolic
-    res = ItemResult(item=f"argorder unlisted={n_unlisted}", sample={"unlisted_free_variables": n_unlisted})
-    free = ["zeta", "alpha", "m", "b2", "B"][:n_unlisted]
-    listed_pool = ["q", "a"]
-    for k in range(0, 3):
-        for listed in itertools.permutations(listed_pool, k):
+    res = ItemResult(item=f"argorder variables={n_vars}", sample={"variables": n_vars})
+    pool = ["q", "a", "zeta", "max", "B", "id", "b2", "sum"][:n_vars]
+    coeff = {n: (i + 2) * 1000 + 7 for i, n in enumerate(pool)}
+    expr = p.Sum(tuple(p.Product((coeff[n], p.Variable(n))) for n in pool)) if len(pool) > 1 else (
+        p.Product((coeff[pool[0]], p.Variable(pool[0]))) if pool else 5)
+    listings = [()]
+    cand = pool[:4] + ["unused_w"]
+    for k in (1, 2, 3):
+        listings += list(itertools.permutations(cand, k))
+    for rnd in (0, 1):      # second round: every listing again after all others were compiled
+        for listed in listings:
             for as_var in (False, True):
                 res.path_assertions += 1
-                allv = list(listed) + free
-                # expression: positional encoding sum(10**i * v_i) so that the order is observable
-                vals = {n: i + 2 for i, n in enumerate(sorted(set(allv)))}
-                expr = p.Sum(tuple(p.Product((vals[n] * 1000 + 7, p.Variable(n))) for n in allv)) if allv else 5
                 lv = [p.Variable(n) if as_var else n for n in listed]
                 try:
                     ce = pymbolic.compile(expr, lv)
-                    order = list(listed) + sorted(free)
+                    order = list(listed) + sorted(set(pool) - set(listed))
                     args = [100 + 3 * i for i in range(len(order))]
                     got = ce(*args)
                     exp = pymbolic.evaluate(expr, dict(zip(order, args)))
@@ -236,9 +240,9 @@ def check_argorder(n_unlisted):
                 if not ok:
                     res.status = "violation"
                     res.violations.append(Violation(
-                        sig=f"argorder listed={listed} var={as_var} unlisted={n_unlisted}", kind="pygen-argument-order",
-                        detail=f"compile({expr}, {lv}) with free variables {free}: {detail}",
-                        replay={"listed": list(listed), "free": free}))
+                        sig=f"argorder listed={listed} var={as_var} variables={n_vars} round={rnd}", kind="pygen-argument-order",
+                        detail=f"compile({expr}, {lv}) (round {rnd} of a history of compiles of this expression): {detail}",
+                        replay={"listed": list(listed), "variables": pool}))
     res.paths = 1
     return res
 
